@@ -3,7 +3,7 @@
    Start events and the ghost set of live markers.  Outcomes: a marker panic (SMarker,
    SDropBomb, SProcess) is forbidden; the other panics and fuel exhaustion are theorem A's. *)
 From Coq Require Import NArith ZArith Arith List Bool Lia.
-From OQ3 Require Import gen.Kinds Model.Parser Model.Grammar.
+From OQ3 Require Import gen.Kinds Model.Parser Model.Grammar Proofs.TablesP.
 Import ListNotations.
 Local Open Scope nat_scope.
 
@@ -249,7 +249,7 @@ Lemma pure_at k : Pure (at_ inp k). Proof. intros s. apply appends_refl. Qed.
 Lemma pure_nth_at n k : Pure (nth_at inp n k). Proof. intros s. apply appends_refl. Qed.
 Lemma pure_at_ts ts : Pure (at_ts inp ts). Proof. intros s. apply appends_refl. Qed.
 Lemma n_raw_of_pos k : 0 < n_raw_of k.
-Proof. unfold n_raw_of. destruct (assocN k composite2); [lia|]. destruct (assocN k composite3); lia. Qed.
+Proof. rewrite n_raw_of_spec. destruct (assocN k composite2); [lia|]. destruct (assocN k composite3); lia. Qed.
 Lemma pure_do_bump k n : 0 < n -> Pure (do_bump k n).
 Proof.
   intros Hn s. split; auto. exists [EToken k n]. cbn [app toksum tokn pos].
